@@ -124,13 +124,16 @@ def rules_family(rng, n):
         sg = rdflib.Graph().parse(data=RULES_TTL % {"nodes": ", ".join(x.n3() for x in iris)}, format="turtle")
         Fs = rng.sample(iris, rng.randint(1, min(3, len(iris))))
         case = {"sg": sg, "data": data, "sel": {"F": Fs, "U": []}}
-        ref = S.run_validate(data, rewritten(case), advanced=True)
-        got = S.run_validate(data, sg, advanced=True, focus_nodes=[curie(x) if rng.random() < 0.3 else str(x) for x in Fs])
+        # with iterate_rules the rules run again after a pass that added something: the later passes fire on the selected nodes only, too
+        it_ = {"iterate_rules": True} if rng.random() < 0.5 else {}
+        ref = S.run_validate(data, rewritten(case), advanced=True, **it_)
+        got = S.run_validate(data, sg, advanced=True, focus_nodes=[curie(x) if rng.random() < 0.3 else str(x) for x in Fs], **it_)
         stats["rule_selection_cases"] += 1
+        stats["rule_selection_cases_iterating"] = stats.get("rule_selection_cases_iterating", 0) + (1 if it_ else 0)
         stats["rule_selection_nonconforming"] += 1 if ref[0] == "ok" and not ref[1] else 0
         if got[0] != ref[0] or (got[0] == "ok" and (got[1] != ref[1] or EC.keys(got) != EC.keys(ref))) or (got[0] == "err" and got[1] != ref[1]):
             fails.append({"what": "advanced mode: focus_nodes=F gives another report than the shapes graph whose targets (of rule shapes too) are narrowed to F",
-                          "focus_nodes": [x.n3() for x in Fs], "shapes_ttl": sg.serialize(format="turtle"), "data_nt": sorted(" ".join(x.n3() for x in t) for t in data),
+                          "focus_nodes": [x.n3() for x in Fs], "options": dict(it_, advanced=True), "shapes_ttl": sg.serialize(format="turtle"), "data_nt": sorted(" ".join(x.n3() for x in t) for t in data),
                           "restricted_run": (got[1], EC.keys(got)) if got[0] == "ok" else got[:2], "reference": (ref[1], EC.keys(ref)) if ref[0] == "ok" else ref[:2]})
     # use_shapes in advanced mode: shapes consulted by a selected shape are advanced as well (their sh:expression counts)
     EXPR_TTL = """@prefix sh: <http://www.w3.org/ns/shacl#> . @prefix ex: <http://ex.org/> .
